@@ -112,13 +112,21 @@ def localize(log, nstages):
             swallow = k
         if what == "after" and after is None:
             after = k
+    # a stage that ORIGINATED `reduced` (the probe below it had not returned it) and later -- when the completion of a
+    # stage above hands it more -- passes elements on again
+    zombie, origin = None, set()
+    for i, (k, e) in enumerate(log):
+        if e == "r" and (i == 0 or log[i - 1] != (k + 1, "r")):
+            origin.add(k + 1)
+        elif e == "s" and k in origin and zombie is None:
+            zombie = k
     top_r, steps = None, 0
     for k, e in ev:
         if k == 0 and e == "s":
             steps += 1
         elif k == 0 and e == "r" and top_r is None:
             top_r = steps
-    return {"swallow": swallow, "after": after, "top_r": top_r, "top_steps": steps}
+    return {"swallow": swallow, "after": after, "zombie": zombie, "top_r": top_r, "top_steps": steps}
 
 
 def signals_late(log, k, need):
@@ -198,7 +206,7 @@ def judge(rt, stages, row, inp, cyclic, forms, quickset, real=True, plain=None):
     results = [((f, "lazy", True), twins[f]) for f in forms if f != "lazy"]
     results += [(p, run(*p)) for p in plan]
 
-    twin_proto = {}
+    twin_proto, twin_many = {}, {}
     for form, tw in twins.items():
         # a form that runs completion 0 or n times: with a stage whose completion has effects, everything else that
         # form shows (result, consumption) is a consequence.  (A run cut short by an exception proves only "n times".)
@@ -206,6 +214,7 @@ def judge(rt, stages, row, inp, cyclic, forms, quickset, real=True, plain=None):
         if pr and (pr[0] != "Xform!Complete(exactly once)" or (tw["exc"] and pr[3] <= 1)):
             pr = None
         twin_proto[form] = pr[1] if pr and has_flush else None
+        twin_many[form] = pr[1] if pr and has_flush and pr[3] > 1 else None      # over-consumption: only "n times" explains it
 
     for (form, kind, probed), o in results:
         exe = {"form": form, "kind": kind, "probed": probed}
@@ -245,6 +254,8 @@ def judge(rt, stages, row, inp, cyclic, forms, quickset, real=True, plain=None):
                 sig = "%s:calls-rf-after-reduced" % _opname(stages[loc["after"] - 1])
             elif loc and loc["swallow"]:
                 sig = "%s:ignores-reduced" % _opname(stages[loc["swallow"] - 1])
+            elif loc and loc["zombie"]:
+                sig = "%s:passes-elements-on-after-signalling-reduced" % _opname(stages[loc["zombie"] - 1])
             elif twin_proto.get(form):
                 sig = twin_proto[form]
             else:
@@ -254,12 +265,25 @@ def judge(rt, stages, row, inp, cyclic, forms, quickset, real=True, plain=None):
         # -- consumption ----------------------------------------------------------------------------------------
         if o["pulls"] is not None:
             if over or o["pulls"] > bound:
+                fc = c07_rt.FORM_CLASS[form]
+                tw_pr = protocol_sig(form, tw) if tw is not None and not tw["exc"] else None
+                no_compl = bool(tw_pr and tw_pr[0] == "Xform!Complete(exactly once)" and tw_pr[3] == 0)
+                alts = sorted((a for a in row["alts"] if a["fc"] == fc and a["out"] == o["out"] and not over
+                               and o["pulls"] <= a.get("minp", -1) + slack and (no_compl or NO_COMPLETION not in a["devs"])),
+                              key=lambda a: (len(a["devs"]), sorted(a["devs"])))
+                if alts and any(d != NO_COMPLETION for d in alts[0]["devs"]):
+                    # same result, but the as-built model (TLC) consumes this much: e.g. a conflating distinct that skips
+                    # the element that would have ended the run
+                    for d in sorted(alts[0]["devs"]):
+                        if d != NO_COMPLETION:
+                            add("Xform!MinPulls+Slack", DEV_SIG[d], exe, {"minpulls": minp, "slack": slack}, {"pulls": o["pulls"]})
+                    continue
                 if loc and loc["swallow"]:
                     sig = "%s:ignores-reduced" % _opname(stages[loc["swallow"] - 1])
                 elif loc and loc["after"]:
                     sig = "%s:calls-rf-after-reduced" % _opname(stages[loc["after"] - 1])
-                elif twin_proto.get(form):
-                    sig = twin_proto[form]
+                elif twin_many.get(form):
+                    sig = twin_many[form]
                 elif loc and (loc["top_r"] is None or loc["top_r"] > minp) and row["red"] and row.get("steps") \
                         and signals_late(tw["log"], row["redby"], row["steps"][row["redby"] - 1]):
                     sig = "%s:signals-reduced-late" % _opname(stages[row["redby"] - 1])
